@@ -13,7 +13,7 @@ CHECKS = {
              "decision must equal the OData 5.1.1.14 table; productions must have operator-precedence shape; actions must "
              "put operator/left/right in the right fields; parentheses/unit productions pass values through; operator "
              "tokens must have their keyword language and may not be excluded by a look-behind where the grammar expects them; `ast.X(...)` is a new X holding "
-             "what it was given (a hand-written __new__ is evaluated). Finite and complete - no depth bound.",
+             "what it was given (a hand-written __new__ is evaluated); the image of the actions puts a node / a list of nodes / a scalar into each field as declared, None only where Optional. Finite and complete - no depth bound.",
         note="Trusted: SLY applies the tables as an LR driver; SLY's resolution rules as read from sly/yacc.py. "
              "Oracle: OData 4.01 Part 2 5.1.1.14.",
         ref="5 C05"),
@@ -106,7 +106,7 @@ _c("C02", "constructor-term extraction by abstract interpretation of the Django 
    "involution; eq/ne null polarity and refusal for other comparators; every djangofunc_* against the meaning table; promotion to Q "
    "exactly at depth 0; shorthand annotates before filtering on the incoming queryset; substring family type-checks both operands; literal "
    "values as written (token-action rule) and the shorthand chain parse(text) -> visit -> one filter without shared state (caches, mutated "
-   "mutable defaults); operand order for every operator, comparison operands unwrapped; the typing rules of C18 (typecheck / infer_type) as a precondition.",
+   "mutable defaults); operand order for every operator, comparison operands unwrapped; visit_Call hands the call's arguments to the handler; the typing rules of C18 (typecheck / infer_type) as a precondition.",
    "Not decided: Django's SQL compilation and execution for all table contents.")
 _c("C03", "constructor-term extraction by abstract interpretation of both SQLAlchemy visitors + sibling cross-check (static)",
    "Decides the structural clauses: operator mapping and operand order; case-normalised reads of case-preserving literal text; escape "
@@ -128,7 +128,7 @@ _c("C06", "regular-language inclusion / shadowing / maximal-munch on DFAs of the
    "earlier rule matches a prefix of a well-formed token in any follow context the grammar allows, the rule matches exactly the token, the "
    "action applies exactly the documented normalisation, DURATION_PATTERN covers the lexer's duration language with groups in order and "
    "the documented 365.25/30.44 constants; no token is excluded by a look-behind where the grammar expects it; the Python value of every other "
-   "single-token literal is the standard-library / dateutil conversion of its own text (a hand-written conversion ends the run without a verdict) and "
+   "single-token literal is the standard-library / dateutil conversion of its own text (wrapped in a lossy function such as int(): reported; any other hand-written conversion ends the run without a verdict) and "
    "exists for every spelling the lexer accepts. Quick uses ASCII + curated Unicode representatives, thorough all code points.",
    "Not decided: numeric/calendar correctness of int/float/fromisoformat/isoparse/UUID/timedelta (library code).")
 _c("C07", "taint analysis over extracted SQL templates (quote regions, transform chains, token alphabets) for the three dialects (static)",
@@ -154,18 +154,18 @@ _c("C12", "exhaustiveness over dispatch-reachable kinds + outcome analysis of ev
    "library exception (or the documented NotImplementedError of Core); attribute reads are defined on every kind that reaches them for "
    "well-typed arguments (OData 4.01 collection overloads included); SQLAlchemy field lookups are guarded so unknown names become "
    "InvalidFieldException; no AST node or node list sits in a result as itself; no shared cache with an under-determined key; names written in "
-   "the filter are not used as Python keyword names unchecked; the typing rules of C18 as a precondition.",
+   "the filter are not used as Python keyword names unchecked; visit_Call hands the call's arguments to the handler; a name read that nothing can have bound, text combined with a non-text operator and isinstance() against an instance count as the NameError/TypeError they raise; the typing rules of C18 as a precondition.",
    "Not decided: exceptions raised inside Django/SQLAlchemy at compile time. Known findings F27, F28.")
 _c("C13", "printer templates vs the parser's LALR decision relation, lexer-action inverses and token languages (static)",
    "Decides the property for the parser's image: parentheses wherever the automaton would regroup, for every (parent operator, slot, child "
    "operator) triple; literal templates are the inverse of the lexer actions with the right fixed prefix/suffix; singleton-list syntax; every "
-   "reachable kind handled; separators lex as the grammar's tokens. Structural induction over depth.",
+   "reachable kind handled and every handler path returns text; every child the parser gives a node is printed exactly once; the fixed text around the children of paths, calls, lambdas and named parameters is the construct's concrete syntax; fields hold what they declare; separators lex as the grammar's tokens. Structural induction over depth.",
    "Relies on C05 for the decision relation being the specification's.")
 _c("C15", "builder-chain analysis of the shorthands by abstract interpretation + class-body analysis of GenericFunction registration (static)",
    "Decides: results are built from the incoming query by additive builders only, ending in exactly one filter of the translated clause; "
    "collected joins are applied (outer) before the filter or skipped only if present; Django annotations applied before filter; every "
    "GenericFunction subclass declares its own package (registration rule re-read from the installed SQLAlchemy); no module-level write into "
-   "SQLAlchemy's namespace, no compile hook or event listener on SQLAlchemy's own classes; no mutated mutable default in the back-end packages.",
+   "SQLAlchemy's namespace, no compile hook or event listener on SQLAlchemy's own classes; no mutated mutable default in the back-end packages; no path of a shorthand ends in a NameError/TypeError/AttributeError of its own statements.",
    "Not decided: row-level equality with the base query, SQLAlchemy's join de-duplication, legacy Query internals.")
 _c("C19", "DFA closure checks on token rules + grammar position checks + case-sensitivity analysis of every consumer of case-variant text (static)",
    "Decides: whitespace-bearing token languages are closed under replacing whitespace runs; the lexer is case-insensitive throughout; "
